@@ -1,14 +1,25 @@
 #!/bin/bash
-# re-confirm every kept seeded change against the current checks: prints one line per seed (CAUGHT with a concrete replay /
-# CAUGHT-NO-INPUT (correspondence or obligation only) / MISSED) and restores Gen by re-running the translator-based checks last
-cd /verif
-for d in seeded/*/; do
-  n=$(basename $d); p=${n%%-*}
-  out=$(timeout 900 tools/try_seed.sh $d $p 2>&1 | grep -v "KNOWN-FINDING")
-  if echo "$out" | grep -q "^VIOLATION.*no-failing-input-found" && ! echo "$out" | grep "^VIOLATION" | grep -qv "no-failing-input-found"; then v=CAUGHT-NO-INPUT
-  elif echo "$out" | grep -q "^VIOLATION"; then v=CAUGHT
-  else v=MISSED; fi
-  demo=$(echo "$out" | grep -c "demo with change:   exit 1")
-  echo "$n $v demo_fails=$demo"
+# re-confirm every kept seeded change against the current checks, in parallel: each worker runs from a private copy of the
+# verification tree (the translator-based checks regenerate lean/Esp/Gen from the changed tree, so workers must not share
+# it).  One line per seed: CAUGHT (concrete replay) / CAUGHT-NO-INPUT (correspondence or obligation only) / MISSED.
+# usage: tools/all_seeds.sh [workers] [dir-with-seeds]
+N=${1:-8}; SRC=${2:-/verif/seeded}
+ls -d $SRC/*/ > /tmp/seedlist.$$
+for i in $(seq 0 $((N-1))); do
+  (
+    V=/tmp/vp-$$-$i; rm -rf $V; rsync -a --exclude .git /verif/ $V/
+    awk -v n=$N -v i=$i 'NR % n == i' /tmp/seedlist.$$ | while read d; do
+      n=$(basename $d); p=${n%%-*}
+      out=$(VROOT=$V NOSUITE=${NOSUITE:-1} timeout 1200 /verif/tools/try_seed.sh $d $p 2>&1 | grep -v "KNOWN-FINDING")
+      if echo "$out" | grep -q "^VIOLATION.*no-failing-input-found" && ! echo "$out" | grep "^VIOLATION" | grep -qv "no-failing-input-found"; then v=CAUGHT-NO-INPUT
+      elif echo "$out" | grep -q "^VIOLATION"; then v=CAUGHT
+      elif echo "$out" | grep -q "internal error"; then v=ERROR
+      else v=MISSED; fi
+      demo=$(echo "$out" | grep -c "demo with change:   exit 1")
+      echo "$n $v demo_fails=$demo"
+    done
+    rm -rf $V
+  ) &
 done
-for p in C12 C13 C14 C15 C18 C09 C10; do ./check $p >/dev/null 2>&1; done
+wait
+rm -f /tmp/seedlist.$$
